@@ -77,8 +77,10 @@ macro_rules! c04_lin_ops {
 macro_rules! c04_mul_ops {
     (@sel $ua:ident, $ub:ident, $a:ident, $b:ident, $e:ident, $sel:ident) => {
         match $sel {
-            0 => { let (v, f) = $ua.overflowing_mul($ub); (f, v.dg()) }
-            1 => { let (v, f) = $a.overflowing_mul($b); (f, v.dg()) }
+            // for * the predicate is the exact product (harness-side, widths <= 16 bits), not bnum's own flag
+            0 => { let v = $ua.wrapping_mul($ub); let p = (dval_u128(&$ua.dg()) as u32) * (dval_u128(&$ub.dg()) as u32); (p >> (8 * core::mem::size_of_val(&$ua) as u32) != 0, v.dg()) }
+            1 => { let v = $a.wrapping_mul($b); let p = (dval_i128(&$a.dg()) as i32) * (dval_i128(&$b.dg()) as i32); let w = 8 * core::mem::size_of_val(&$a) as u32;
+                   (p < -(1i32 << (w - 1)) || p >= (1i32 << (w - 1)), v.dg()) }
             2 => { let (v, f) = $ua.overflowing_pow($e); (f, v.dg()) }
             3 => { let (v, f) = $a.overflowing_pow($e); (f, v.dg()) }
             4 => { $crate::nd::assume(!$ub.is_zero());
